@@ -298,7 +298,8 @@ class Inliner:
     def _helper_body(self, helper, depth, stack):
         from .core import FuncInfo
         node = self.inline_function(helper, depth - 1, stack)
-        return node
+        g = generator_as_expression(node)
+        return g if g is not None else node
 
     def _expr(self, e, owner, depth, stack):
         """substitute expression-form helpers inside e"""
@@ -524,3 +525,39 @@ def simplify(fn):
             return n
         visit_ListComp = visit_GeneratorExp = visit_SetComp = visit_DictComp = _fuse
     return T().visit(fn)
+
+
+def generator_as_expression(fn):
+    """a generator helper of the shape  `for x in S: [if c: continue]* [t = e]* (yield v | if c: yield v)`  is the generator
+    expression  (v for x in S if not c ... if c)  : returns a copy of fn whose body is `return (<genexp>)`, or None"""
+    body = _strip_doc(fn.body)
+    if len(body) != 1 or not isinstance(body[0], ast.For) or body[0].orelse:
+        return None
+    loop = body[0]
+    if not any(isinstance(n, ast.Yield) for n in _walk_local(fn)) or any(isinstance(n, ast.YieldFrom) for n in _walk_local(fn)):
+        return None
+    conds, env = [], {}
+    stmts = list(loop.body)
+    value = None
+    while stmts:
+        st = stmts.pop(0)
+        if isinstance(st, ast.If) and not st.orelse and len(st.body) == 1 and isinstance(st.body[0], ast.Continue):
+            conds.append(ast.UnaryOp(op=ast.Not(), operand=_Subst(env).visit(copy.deepcopy(st.test))))
+            continue
+        if isinstance(st, ast.Assign) and len(st.targets) == 1 and isinstance(st.targets[0], ast.Name):
+            env[st.targets[0].id] = _Subst(env).visit(copy.deepcopy(st.value))
+            continue
+        if isinstance(st, ast.If) and not st.orelse and not stmts:
+            conds.append(_Subst(env).visit(copy.deepcopy(st.test)))
+            stmts = list(st.body)
+            continue
+        if isinstance(st, ast.Expr) and isinstance(st.value, ast.Yield) and not stmts and st.value.value is not None:
+            value = _Subst(env).visit(copy.deepcopy(st.value.value))
+            continue
+        return None
+    if value is None:
+        return None
+    gen = ast.GeneratorExp(elt=value, generators=[ast.comprehension(target=copy.deepcopy(loop.target), iter=copy.deepcopy(loop.iter), ifs=conds, is_async=0)])
+    new = copy.copy(fn)
+    new.body = [ast.Return(value=gen)]
+    return ast.fix_missing_locations(ast.copy_location(new, fn))
